@@ -33,7 +33,7 @@ def gen_tree(rng, depth, maxdepth, path=()):
     return node
 
 
-def build(node, workdir, top=True, tag="t"):
+def build(node, workdir, top=True, tag="t", use_env=True):
     kw = {}
     if node["dcf"]:
         fn = os.path.join(workdir, f"dcf_{tag}_{'_'.join(node['path']) or 'top'}.yaml")
@@ -41,7 +41,7 @@ def build(node, workdir, top=True, tag="t"):
             yaml.safe_dump(node["dcf"], f)
         kw["default_config_files"] = [fn]
     if top:
-        p = ArgumentParser(exit_on_error=False, prog="app", env_prefix="APP", default_env=True, **kw)
+        p = ArgumentParser(exit_on_error=False, prog="app", env_prefix="APP", default_env=use_env, **kw)
     else:
         p = ArgumentParser(exit_on_error=False, **kw)
     if node["cfg"] or top:
@@ -51,9 +51,9 @@ def build(node, workdir, top=True, tag="t"):
     return p
 
 
-def attach(node, workdir, tag):
+def attach(node, workdir, tag, use_env=True):
     """level order construction as the library requires"""
-    top = build(node, workdir, True, tag)
+    top = build(node, workdir, True, tag, use_env)
     level = [(node, top)]
     while level:
         nxt = []
@@ -86,7 +86,7 @@ def gen_inputs(rng, node, depth=0):
     sel = None
     if node["subs"]:
         names = list(node["subs"])
-        how = rng.choice(["argv", "argv", "config-named", "env-named", "settings-only", "several-settings", "none", "argv-vs-config-disagree", "config-named-plus-other-settings"])
+        how = rng.choice(["argv", "argv", "config-named", "env-named", "settings-only", "several-settings", "none", "argv-vs-config-disagree", "config-named-plus-other-settings", "env-named-plus-settings-for-other"])
         chosen = rng.choice(names)
         if how == "argv":
             sel = chosen
@@ -94,6 +94,9 @@ def gen_inputs(rng, node, depth=0):
             doc["subcommand"] = chosen
         elif how == "env-named":
             env[env_prefix(node["path"]) + "SUBCOMMAND"] = chosen
+        elif how == "env-named-plus-settings-for-other":
+            env[env_prefix(node["path"]) + "SUBCOMMAND"] = chosen
+            doc["__settings_for__"] = [rng.choice(names)]
         elif how == "settings-only":
             doc["__settings_for__"] = [chosen]
         elif how == "several-settings":
@@ -240,14 +243,19 @@ def case(ctx, i, rng):
     maxdepth = rng.choice([1, 2, 2, 3])
     tree = gen_tree(rng, 0, maxdepth)
     tag = f"{i % 50}"
-    o = call(attach, tree, ctx.workdir, tag)
+    use_env = rng.random() < 0.5  # with env parsing off the environment variables are decoys that must be ignored
+    env_after = use_env and rng.random() < 0.4
+    o = call(attach, tree, ctx.workdir, tag, use_env and not env_after)
+    if o.accepted and env_after:
+        o.value.default_env = True  # enabled after the whole tree was built
+        ctx.count("st.env.enabled-after-construction")
     if not o.accepted:
         ctx.inconclusive(f"tree construction failed: {o.brief()}")
         return
     p = o.value
     tokens, doc, env = gen_inputs(rng, tree)
     levels, sels = split_levels(tokens)
-    channel = rng.choice(["argv", "argv+cfg", "object", "string", "argv+cfgfile"])
+    channel = rng.choice(["argv", "argv+cfg", "object", "string", "argv+cfgfile", "argv+2cfg"])
     if channel in ("object", "string") and (sels or any(levels)):
         # these channels carry no command line: fold the argv part away
         levels, sels = [[]], []
@@ -255,12 +263,18 @@ def case(ctx, i, rng):
         doc_used = {}
     else:
         doc_used = doc
-    exp = expect(tree, levels, sels, doc_used, env)
+    exp = expect(tree, levels, sels, doc_used, env, use_env)
     with environ(env):
         if channel == "argv":
             o = call(p.parse_args, render_argv(levels, sels, []))
         elif channel == "argv+cfg":
             o = call(p.parse_args, render_argv(levels, sels, [f"--cfg={json.dumps(doc)}"] if doc else []))
+        elif channel == "argv+2cfg":
+            # the document split over two --cfg: what names / selects first, then the sections (merged left to right)
+            first = {k: v for k, v in doc.items() if not isinstance(v, dict)}
+            second = {k: v for k, v in doc.items() if isinstance(v, dict)}
+            cfgs = ([f"--cfg={json.dumps(first)}"] if first else []) + ([f"--cfg={json.dumps(second)}"] if second else [])
+            o = call(p.parse_args, render_argv(levels, sels, cfgs))
         elif channel == "argv+cfgfile":
             path = os.path.join(ctx.workdir, f"c17_{tag}.yaml")
             with open(path, "w") as f:
@@ -270,13 +284,14 @@ def case(ctx, i, rng):
             o = call(p.parse_object, copy.deepcopy(doc))
         else:
             o = call(p.parse_string, json.dumps(doc))
-    rule = rule_used(tree, sels, doc_used, env)
+    rule = rule_used(tree, sels, doc_used, env if use_env else {})
+    ctx.count("st.env." + ("on" if use_env else "off-with-decoys"))
     ctx.evaluation(("c17", maxdepth, channel, rule, short(tree, 400), short(doc_used, 300), tuple(sels)))
     ctx.count("mon.tree_comparisons")
     ctx.count(f"st.rule.{rule}")
     ctx.count(f"st.depth.{maxdepth}")
     ctx.count(f"st.channel.{channel}")
-    w = dict(channel=channel, tree=short(_tree_summary(tree), 900), argv=render_argv(levels, sels, []), config=doc_used, env=env, rule=rule)
+    w = dict(default_env=use_env, channel=channel, tree=short(_tree_summary(tree), 900), argv=render_argv(levels, sels, []), config=doc_used, env=env, rule=rule)
     if not (o.accepted or o.rejected):
         ctx.observe("escape (C03)", o.brief())
         return
